@@ -456,6 +456,8 @@ func RunC03(c *Ctx, r *Report) {
 	c.valueGuardRule(r, prefix+"value-guards")
 	c.encodeTotality(r, prefix)
 	c.akaRules(r, prefix, "roundtrip")
+	c.akaPaddingRule(r, prefix)
+	c.encodeOwnHeaderRule(r, prefix+"encode-own-header")
 }
 
 // unresolvedRule: the extractor understood every store / write of the codec functions.
